@@ -82,6 +82,32 @@ def gen_aliases(rng):
     return {"0": ["Item", a0, []], "1": ["Item", a1, []], "2": ["L", gen, [0]]}
 
 
+UNION_SIZES = [9, 10, 11, 16]  # MultiValuedValue.can_assign has a hashed fast path from 10 members on: both sides of it
+
+
+def gen_large_union(rng):
+    """a union of 9 / 10 / 11 / 16 distinct static members: scalar and container literals (hashable and not),
+    classes, Annotated literals, generics, tuples"""
+    n = rng.choice(UNION_SIZES)
+    pool = [["known", ["int", k]] for k in (3, 20, 21, 22, 23, 24)] + [["known", ["str", ch]] for ch in "pqr"] + \
+           [["known", p] for p in POOL if p[0] in ("list", "dict", "set")][:6] + \
+           [["typed", c] for c in ("str", "float", "A", "C", "bytes", "NoneType", "FSub")] + \
+           [["annot", ["known", ["int", 7]], [1]], ["annot", ["typed", "B"], [2]], ["known", ["tuple", 902, [["int", 1], ["str", "a"]]]],
+            ["generic", "list", [["typed", "int"]]], ["seq", "tuple", [[False, ["typed", "str"]]]], ["subclass", ["typed", "A"], False],
+            ["known", ["none"]], ["known", ["bool", True]], ["known", ["float", 1.5]], ["known", ["e", "a"]], ["known", ["class", "A"]]]
+    return ["unite", rng.sample(pool, n)]
+
+
+def wrap_member(rng, m):
+    """a value that a union member accepts: the member itself, Annotated[member], a narrowing of it"""
+    r = rng.random()
+    if r < 0.35:
+        return m
+    if r < 0.7:
+        return ["annot", m, [rng.randrange(1, 3)]] if m[0] != "annot" else m
+    return narrow(m, rng)
+
+
 def gen_static(rng, depth, any_ok=False):
     r = rng.random()
 
@@ -293,6 +319,23 @@ def run(tier: str, replay: str | None = None):
             b = narrow(a, rng) if r < 0.55 else (a if r < 0.62 else gen_static(rng, dep, any_ok))
             c = narrow(a, rng) if rng.random() < 0.5 else gen_static(rng, 2, any_ok)
             if rng.random() < 0.07:
+                # large unions on the left (and, less often, on the right): B is a member, an Annotated member,
+                # an alias of a member or a sub-union
+                a = gen_large_union(rng)
+                mem = rng.choice(a[1])
+                r = rng.random()
+                if r < 0.55:
+                    b = wrap_member(rng, mem)
+                elif r < 0.7:
+                    aliases["0"] = ["Item", mem, []]
+                    b = ["alias", 0, []]
+                elif r < 0.85:
+                    b = ["unite", [wrap_member(rng, x) for x in rng.sample(a[1], min(len(a[1]), rng.choice([2, 3, 9, 10])))]]
+                else:
+                    a, b = gen_static(rng, 2, any_ok), a
+                big = a if a[0] == "unite" and len(a[1]) > 8 else b
+                c = wrap_member(rng, rng.choice(big[1]))
+            elif rng.random() < 0.07:
                 # type aliases, at the top of A and B only (PEP 695: two same-named aliases of one module, one
                 # generic alias); C stays alias-free and the union laws are not evaluated for these cases
                 i = rng.randrange(3)
@@ -333,6 +376,10 @@ def run(tier: str, replay: str | None = None):
                 "any_both_ways": acc(A, ANY) and acc(ANY, B)}
         if anyfree:
             laws["object_top"] = acc(OBJ, B) and acc(OBJ, B, True)
+        # a union accepts whatever one of its members accepts (members tried one by one on the real code)
+        if isinstance(A, V.MultiValuedValue) and anyfree:
+            if any(acc(mm, B) for mm in A.vals):
+                laws["union_accepts_what_a_member_accepts"] = obs["ab"]
         if not G_has(case, "alias"):  # same-named aliases compare equal (name and module only), so unite_values merges them
             bc = V.unite_values(B, C)
             laws["union_right_iff_all"] = acc(A, bc) == (obs["ab"] and obs["ac"])
